@@ -217,7 +217,7 @@ def handleRun (j : Json) : R String := do
   | "evaluate" =>
     let t ← int call "t"
     let W := specWrapped T (mkSpec 0.0)
-    let (uf, rf) := wEvaluate W.toEngine u0 t
+    let (uf, rf) := wEvaluate W u0 t
     let ftag := match rf with
       | .ok => "ok" | .indexError => "IndexError" | .solutionError => "SolutionError"
     let (up, raised) := pBody (ops8 lits) prog u0 t
